@@ -8,7 +8,7 @@ EXTENDS Forward, TLC, Json, IOUtils
 
 Rec == ndJsonDeserialize(IOEnv.TRACE)
 N == Len(Rec)
-TNodes == 1..4
+TNodes == 1..5
 \* claims of the router-mode scenario (harness: nfwd.rs router_claims) on the 4-bit universe
 TClaim == [n \in TNodes |-> IF IOEnv.MODE # "router" THEN {}
                             ELSE IF n = 1 THEN {<<8, 1, 4>>} ELSE IF n = 2 THEN {<<12, 2, 4>>, <<0, 0, 4>>}
